@@ -62,6 +62,8 @@ SPEC = [
         "__internal_handle_request"]),
     ("ledger.version", "HSM2FirmwareVersion", ["__init__", "supports", "__ge__", "__eq__"]),
     ("ledger.pin", "BasePin", ["is_valid"]),
+    ("admin.certificate_v1", "HSMCertificate", ["validate_and_get_values"]),
+    ("admin.certificate_v2", "HSMCertificateV2", ["validate_and_get_values"]),
     ("ledger.signature", "HSM2DongleSignature", ["__init__"]),
     ("ledger.parameters", "HSM2FirmwareParameters", ["__init__", "from_dongle_format"]),
     ("admin.utils", None, ["hex_or_decimal_string_to_int"]),
@@ -75,7 +77,9 @@ EXC = {"ValueError": "ValueError", "TypeError": "TypeError", "IndexError": "Inde
 TYPES = {"dict": "TDict", "str": "TStr", "int": "TInt", "list": "TList", "bytes": "TBytes",
          "bool": "TBool", "float": "TFloat"}
 LOGGER_NAMES = {"logger", "_logger", "LOGGER"}
-EXTRA_TYPES = {"op_": "pv -> pv -> pr pv", "int_oracle_": "str -> Z -> option Z"}
+EXTRA_TYPES = {"op_": "pv -> pv -> pr pv", "int_oracle_": "str -> Z -> option Z", "fuel_": "nat",
+               "call_method_": "string -> pv -> list pv -> pr pv"}
+EXTRA_ORDER = ["fuel_", "int_oracle_", "call_method_", "op_"]
 
 
 def coq_string(x):
@@ -192,6 +196,7 @@ class Gen:
         t = FuncTr(self, m, cls, fd, has_self)
         body = t.run()
         params = " ".join("(%s : pv)" % p for p in t.coq_params)
+        t.extra_params.sort(key=EXTRA_ORDER.index)
         extra = "".join(" (%s : %s)" % (p, EXTRA_TYPES[p]) for p in t.extra_params)
         text = "Definition %s%s %s : pr pv :=\n%s." % (coqname, extra, params, textwrap.indent(body, "  "))
         self.in_progress.discard(key)
@@ -233,15 +238,42 @@ def contains(stmts, kinds):
     return False
 
 
+def contains_at_level(stmts, kinds):
+    """like contains(), but does not look inside nested loops (their break / continue are their own)"""
+    for st in stmts:
+        if isinstance(st, kinds):
+            return True
+        if isinstance(st, (ast.While, ast.For)):
+            continue
+        for fld in ("body", "orelse", "handlers", "finalbody"):
+            sub = getattr(st, fld, None)
+            if sub:
+                items = []
+                for x in sub:
+                    items.extend(x.body if isinstance(x, ast.ExceptHandler) else [x])
+                if contains_at_level(items, kinds):
+                    return True
+    return False
+
+
 def assigned_names(stmts):
     out = []
     for st in stmts:
         for n in ast.walk(st):
             tgt = []
             if isinstance(n, ast.Assign):
-                tgt = n.targets
+                tgt = list(n.targets)
+                v = n.value
+                if isinstance(v, ast.Call) and isinstance(v.func, ast.Attribute) and v.func.attr == "pop" \
+                        and isinstance(v.func.value, ast.Name) and not v.args:
+                    tgt.append(v.func.value)
             elif isinstance(n, ast.AugAssign):
                 tgt = [n.target]
+            elif isinstance(n, ast.For):
+                tgt = [n.target]
+            elif isinstance(n, ast.Expr) and isinstance(n.value, ast.Call) and isinstance(n.value.func, ast.Attribute) \
+                    and n.value.func.attr == "append" and isinstance(n.value.func.value, ast.Name):
+                tgt = [n.value.func.value]
             for t in tgt:
                 if isinstance(t, ast.Name) and t.id not in out:
                     out.append(t.id)
@@ -270,6 +302,7 @@ class FuncTr:
         if any(isinstance(d, ast.Name) and d.id == "staticmethod" for d in fd.decorator_list):
             has_self = self.has_self = False
         self.local_funcs = {}
+        self.loop_tups = []
         self.selfname = self.params[0] if has_self else None
         self.coq_params = [self.v(p) for p in self.params]
         self.is_init = fd.name == "__init__"
@@ -312,6 +345,13 @@ class FuncTr:
                 return self.stmts(rest, k, ret)
             if isinstance(st.value, ast.Constant):
                 return self.stmts(rest, k, ret)
+            c_ = st.value
+            if isinstance(c_, ast.Call) and isinstance(c_.func, ast.Attribute) and c_.func.attr == "append" \
+                    and isinstance(c_.func.value, ast.Name) and len(c_.args) == 1 and not c_.keywords:
+                n = self.v(c_.func.value.id)
+                t = self.fresh()
+                return "pbind (%s) (fun %s => pbind (py_list_append %s %s) (fun %s =>\n%s))" % (
+                    self.expr(c_.args[0]), t, n, t, n, self.stmts(rest, k, ret))
             if isinstance(st.value, ast.Call) and isinstance(st.value.func, ast.Name) \
                     and st.value.func.id in self.local_funcs and not st.value.args:
                 return self.stmts(self.local_funcs[st.value.func.id].body, "PStuck", ret)
@@ -335,6 +375,11 @@ class FuncTr:
             n = self.v(st.target.id)
             return "pbind (%s) (fun %s => pbind (%s %s %s) (fun %s =>\n%s))" % (
                 self.expr(st.value), t, op, n, t, n, self.stmts(rest, k, ret))
+        if isinstance(st, ast.While):
+            return self.while_(st, rest, k, ret)
+        if isinstance(st, ast.Break):
+            need(self.loop_tups, "break outside a translated while loop", st)
+            return "POk (VList [VBool false; %s])" % self.loop_tups[-1]
         if isinstance(st, ast.Try):
             return self.try_(st, rest, k, ret)
         if isinstance(st, ast.For):
@@ -342,6 +387,11 @@ class FuncTr:
         need(False, "statement %s not in the translated subset" % type(st).__name__, st)
 
     def assign(self, tgt, value, rest, k, ret, st):
+        if isinstance(tgt, ast.Name) and isinstance(value, ast.Call) and isinstance(value.func, ast.Attribute) \
+                and value.func.attr == "pop" and isinstance(value.func.value, ast.Name) and not value.args:
+            lst = self.v(value.func.value.id)
+            return ("pbind (py_list_pop %s) (fun p_ => match p_ with VList [%s; %s] =>\n%s\n | _ => PStuck end)"
+                    % (lst, self.v(tgt.id), lst, self.stmts(rest, k, ret)))
         is_opaque = self.is_opaque_expr(value)
         if isinstance(tgt, ast.Name):
             if is_opaque:
@@ -416,19 +466,50 @@ class FuncTr:
                 "  | PRaise e_ => if %s || existsb (pyexc_eqb e_) %s then (%s) else PRaise e_\n  | PStuck => PStuck\n  end"
                 % (body, tup, kk, ca, cl, hand))
 
+    def bound_before(self, st):
+        """names certainly bound when st starts: parameters and targets of earlier (by line) assignments"""
+        out = set(self.params)
+        for n in ast.walk(self.fd):
+            if getattr(n, "lineno", 10 ** 9) < st.lineno:
+                if isinstance(n, (ast.Assign, ast.AugAssign, ast.For)):
+                    out.update(assigned_names([n]))
+        return out
+
+    def init_tuple(self, names, st):
+        b = self.bound_before(st)
+        return "VList [%s]" % "; ".join(self.v(n) if n in b else "VNone" for n in names)
+
+    def while_(self, st, rest, k, ret):
+        need(isinstance(st.test, ast.Constant) and st.test.value is True and not st.orelse,
+             "while loop that is not `while True:`", st)
+        need(not contains(st.body, (ast.Return, ast.Continue)), "return / continue inside a while loop", st)
+        names = assigned_names(st.body)
+        tup = "VList [%s]" % "; ".join(self.v(n) for n in names)
+        init = self.init_tuple(names, st)
+        if "fuel_" not in self.extra_params:
+            self.extra_params.append("fuel_")
+        self.loop_tups.append(tup)
+        body = self.stmts(st.body, "POk (VList [VBool true; %s])" % tup, lambda e: "PStuck")
+        self.loop_tups.pop()
+        kk = self.stmts(rest, k, ret)
+        return ("pbind (py_loop fuel_ (%s) (fun st_ => match st_ with %s =>\n%s\n | _ => PStuck end))\n"
+                "  (fun st_ => match st_ with %s =>\n%s\n | _ => PStuck end)" % (init, tup, body, tup, kk))
+
     def for_(self, st, rest, k, ret):
         need(not st.orelse, "for-else", st)
-        need(not contains(st.body, (ast.Return, ast.Break, ast.Continue, ast.Raise)), "for body leaves the loop", st)
+        need(not contains(st.body, (ast.Return,)) and not contains_at_level(st.body, (ast.Break, ast.Continue)),
+             "for body leaves the loop", st)
         need(isinstance(st.target, ast.Name), "for target", st)
         names = [n for n in assigned_names(st.body) if n != st.target.id]
         tup = "VList [%s]" % "; ".join(self.v(n) for n in names)
+        init_tup = self.init_tuple(names, st)
         body = self.stmts(st.body, "POk (%s)" % tup, lambda e: "PStuck")
         it = self.fresh()
         itx = self.expr(st.iter)
         kk = self.stmts(rest, k, ret)
         return ("pbind (%s) (fun %s => pbind (py_for %s (%s) (fun st_ %s => match st_ with %s => %s | _ => PStuck end))\n"
                 "  (fun st_ => match st_ with %s => %s | _ => PStuck end))"
-                % (itx, it, it, tup, self.v(st.target.id), tup, body, tup, kk))
+                % (itx, it, it, init_tup, self.v(st.target.id), tup, body, tup, kk))
 
     # ----- helpers -----
     def exc_of(self, st):
@@ -842,9 +923,16 @@ class FuncTr:
             if f.attr == "split" and len(e.args) == 1:
                 return self.binds([f.value, e.args[0]], lambda a: "py_split %s %s" % (a[0], a[1]))
             # method of another translated object whose class is known from a classmethod `cls`
-            if isinstance(f.value, ast.Name) and f.value.id == self.selfname and self.cls is not None:
-                need(False, "unknown method self.%s" % f.attr, e)
-            need(False, "method call .%s" % f.attr, e)
+            if f.attr == "get" and len(e.args) == 1 and not e.keywords:
+                return self.binds([f.value, e.args[0]], lambda a: "py_dict_get %s %s" % (a[0], a[1]))
+            # a method of an object the translation knows nothing about (certificate elements ...): an oracle
+            need(not e.keywords and f.attr not in ("append", "pop", "extend", "insert", "remove", "clear", "update",
+                                                   "sort", "reverse", "setdefault", "popitem"),
+                 "mutating / keyword method call .%s" % f.attr, e)
+            if "call_method_" not in self.extra_params:
+                self.extra_params.append("call_method_")
+            return self.binds([f.value] + list(e.args), lambda a: "call_method_ %s %s [%s]" % (
+                coq_string(f.attr), a[0], "; ".join(a[1:])))
         if isinstance(f, ast.Subscript) and isinstance(f.value, ast.Attribute) and isinstance(f.value.value, ast.Name) \
                 and f.value.value.id == self.selfname and self.cls is not None and len(e.args) == 1:
             if f.value.attr == "_validation_mappings":
